@@ -1,4 +1,5 @@
 import CssVerif.Lemmas.Ns
+import CssVerif.Lemmas.NsShare
 /-!
 # C15 — namespace declarations and namespaced selectors stay consistent
 
@@ -758,5 +759,190 @@ example : AllOk [] [.parse [] [.ns W.p W.u1 false false false, .style [[.q .type
   intro r hr
   simp only [List.mem_cons, List.not_mem_nil, or_false] at hr
   rcases hr with rfl | rfl <;> trivial
+
+/-! ## T15.5 one style rule object in the rule lists of two sheets (`Model/NsShare.lean`)
+
+`B.insertRule(A.cssRules[i])` leaves the object in `A`'s list; it resolves and writes its selectors with the
+namespaces of the sheet it was inserted into last, and `deleteRule` of either sheet detaches it. -/
+
+/-- T15.5 (one step): both sheets stay consistent under every operation on either sheet and on the followed
+object — whether accepted or rejected — outside the known findings: the guards are those of the one-sheet
+model (`OpOk`), "the receiving sheet declares the URIs of the object" (C15-foreign-style-rule), and
+"`selectorText =` on the object only while no sheet other than its parent has it in its list"
+(C15-rule-in-two-sheets).
+Full statement (FAILS on the current code, see `rule_in_two_sheets_retarget_breaks`):
+`WGood w → WGood (wstep w op).1` for every `op`. -/
+theorem wgood_step_partial (w : World) (op : WOp) (h : WGood w) (hok : WOpOk w op) : WGood (wstep w op).1 := by
+  cases op with
+  | on side op =>
+    obtain ⟨hop, hsel⟩ := hok
+    by_cases hhit : ∃ i sels, op = .setSelText i sels ∧ w.objIndex side = some i
+    · obtain ⟨i, sels, rfl, hi⟩ := hhit
+      simp only [wstep, hi, if_true]
+      cases ho : w.obj with
+      | none => exact h
+      | some o => exact wgood_objSetSel sels h (hsel i sels rfl hi o ho)
+    · have hno : ∀ i sels, op = .setSelText i sels → w.objIndex side ≠ some i :=
+        fun i sels e hi => hhit ⟨i, sels, e, hi⟩
+      obtain ⟨h1, h2⟩ := wstep_on_sheets w side op hno
+      intro sd
+      by_cases e : sd = side
+      · subst e
+        rcases h1 with h1 | h1
+        · rw [h1]; exact good_step_partial _ op (h sd) hop
+        · rw [h1]; exact h sd
+      · have e' : sd = !side := by cases sd <;> cases side <;> simp_all
+        subst e'
+        rw [h2]; exact h _
+  | grab side i sels =>
+    simp only [wstep]
+    split
+    · rename_i x ho hi
+      split
+      · exact h
+      · cases hr : resolveSels (view (w.sheet side)) sels with
+        | error e => exact h
+        | ok y =>
+          simp only
+          intro sd
+          rw [World.sheet_with_obj]
+          by_cases e : sd = side
+          · subst e
+            rw [World.sheet_setSheet_same]
+            obtain ⟨pre, post, hs, rfl⟩ := split_at hi
+            rw [hs, set_split]
+            have hg := h sd
+            rw [hs] at hg
+            apply good_set_style rfl hg
+            intro u hu
+            have := resolveSels_uris hr u hu
+            rw [hs] at this
+            exact (hg.values u).mp this
+          · have e' : sd = !side := by cases sd <;> cases side <;> simp_all
+            subst e'
+            rw [World.sheet_setSheet_other]; exact h _
+    · exact h
+  | share to idx io =>
+    simp only [wstep]
+    cases ho : w.obj with
+    | none => exact h
+    | some o =>
+      simp only
+      cases hp : o.pos to with
+      | some k => exact h
+      | none =>
+        simp only
+        split
+        · rename_i j hj
+          intro sd
+          rw [World.sheet_with_obj]
+          by_cases e : sd = to
+          · subst e
+            rw [World.sheet_setSheet_same]
+            exact good_insertStyle (h sd) (hok o ho)
+          · have e' : sd = !to := by cases sd <;> cases to <;> simp_all
+            subst e'
+            rw [World.sheet_setSheet_other]; exact h _
+        · exact h
+  | objSel sels =>
+    simp only [wstep]
+    cases ho : w.obj with
+    | none => exact h
+    | some o => exact wgood_objSetSel sels h (hok o ho)
+
+/-- T15.5 (histories) -/
+theorem wgood_run_partial (ops : List WOp) : ∀ (w : World), WGood w → WAllOk w ops → WGood (wrun w ops) := by
+  induction ops with
+  | nil => intro w h _; exact h
+  | cons op t ih =>
+    intro w h hall
+    exact ih _ (wgood_step_partial w op h hall.1) hall.2
+
+/-- T15.5: putting the followed object into a sheet is, for that sheet, the one-sheet operation "insert a style
+rule object built elsewhere" (`insStyleObj`): every one-sheet theorem applies to the receiving sheet, and the
+other sheet's list does not change -/
+theorem share_is_insert_obj (w : World) (o : Obj) (to : Bool) (idx : Option Nat) (io : Bool)
+    (ho : w.obj = some o) (hp : o.pos to = none) :
+    (wstep w (.share to idx io)).1.sheet to = (step (w.sheet to) (.insStyleObj o.sels idx io)).1 ∧
+    (wstep w (.share to idx io)).2 = (step (w.sheet to) (.insStyleObj o.sels idx io)).2 ∧
+    (wstep w (.share to idx io)).1.sheet (!to) = w.sheet (!to) := by
+  simp only [wstep, ho, hp, step]
+  rcases insertStyle_cases (w.sheet to) (.style o.sels) idx io with ⟨j, hj⟩ | ⟨e, he⟩
+  · simp [hj]
+  · simp [he]
+
+namespace W2
+/-- `@namespace p "u1"; p|a {…}` -/
+def a : Sheet := W.base
+/-- `@namespace q "u1"; @namespace z "u2"; q|b {…}` -/
+def b : Sheet := (step [] (.parse [] [.ns W.q W.u1 false false false, .ns W.z W.u2 false false false,
+  .style [[.q .typeSel (.named W.q) W.b]]])).1
+def w0 : World := { a := a, b := b, obj := none }
+def pa : List SSel := [[.q .typeSel (.named W.p) W.a]]
+/-- `r = A.cssRules[1]; r.selectorText = 'p|a'; B.add(r)` -/
+def shared : World := wrun w0 [.grab false 1 pa, .share true none true]
+end W2
+
+/-- non-vacuity: the witness world is consistent, and the sharing step is admissible (B declares `u1`) -/
+example : WGood W2.w0 ∧ WAllOk W2.w0 [.grab false 1 W2.pa, .share true none true] ∧ WGood W2.shared := by
+  have h0 : WGood W2.w0 := by
+    intro sd
+    cases sd
+    · exact ⟨by decide, by decide, by decide⟩
+    · exact ⟨by decide, by decide, by decide⟩
+  have hok : WAllOk W2.w0 [.grab false 1 W2.pa, .share true none true] := by
+    refine ⟨trivial, ?_, trivial⟩
+    intro o ho u hu
+    have e : (wstep W2.w0 (.grab false 1 W2.pa)).1.obj =
+        some { sels := [[.q .typeSel (.uri W.u1) W.a]], owner := some false, own := [[(W.p, W.u1)]],
+               posA := some 0, posB := none } := by decide
+    rw [e] at ho
+    cases ho
+    have : u = W.u1 := by simpa [selsUris, itemUris, W.u1] using hu
+    subst this
+    decide
+  exact ⟨h0, hok, wgood_run_partial _ _ h0 hok⟩
+
+/-- C15-rule-in-two-sheets (open), writing: the object is in both lists (A index 1, B index 3) and belongs to B.
+Both sheets are consistent and both declare `u1` — but A writes the rule with B's prefix, `q|a`, which A does not
+declare: the serialisation of A does not re-resolve in A -/
+theorem rule_in_two_sheets_breaks :
+    W2.shared.objIndex false = some 1 ∧ W2.shared.objIndex true = some 3 ∧
+    W2.shared.obj.map (·.owner) = some (some true) ∧
+    W2.shared.obj.map W2.shared.objTexts = some [W.q ++ bar ++ W.a] ∧
+    resolveItem (view W2.shared.a) (.q .typeSel (.named W.q) W.a) = .error .namespaceErr := by
+  refine ⟨by decide, by decide, by decide, by decide, rfl⟩
+
+/-- C15-rule-in-two-sheets (open), re-targeting: `r.selectorText = 'z|c'` resolves against B (`z` → `u2`) and
+changes the rule in A's list as well, where no rule declares `u2` -/
+theorem rule_in_two_sheets_retarget_breaks :
+    (wstep W2.shared (.objSel [[.q .typeSel (.named W.z) W.a]])).2 = .ok none ∧
+    usedUris (wstep W2.shared (.objSel [[.q .typeSel (.named W.z) W.a]])).1.a = [W.u2] ∧
+    nsUris (wstep W2.shared (.objSel [[.q .typeSel (.named W.z) W.a]])).1.a = [W.u1] := by
+  decide
+
+/-- C15-rule-in-two-sheets (open), detaching: `A.deleteRule(1)` takes the object out of A and leaves it in B's
+list WITHOUT parent; it then writes its selectors with the private copy of A's mapping taken when its text was
+set (`p|a`), which B does not declare, and no later re-binding in B reaches it -/
+theorem rule_in_two_sheets_detach_breaks :
+    (wstep W2.shared (.on false (.delRule 1))).2 = .ok none ∧
+    (wstep W2.shared (.on false (.delRule 1))).1.objIndex true = some 3 ∧
+    (wstep W2.shared (.on false (.delRule 1))).1.obj.map (·.owner) = some none ∧
+    (wstep W2.shared (.on false (.delRule 1))).1.obj.map (wstep W2.shared (.on false (.delRule 1))).1.objTexts =
+      some [W.p ++ bar ++ W.a] ∧
+    resolveItem (view (wstep W2.shared (.on false (.delRule 1))).1.b) (.q .typeSel (.named W.p) W.a) =
+      .error .namespaceErr := by
+  refine ⟨by decide, by decide, by decide, by decide, rfl⟩
+
+/-- the proper move — out of A first, then into B — ends with the object in B's list only, B its parent, written
+with B's prefix, and A free to drop the declaration -/
+example :
+    (wrun W2.w0 [.grab false 1 W2.pa, .on false (.delRule 1), .share true none true]).objIndex false = none ∧
+    (wrun W2.w0 [.grab false 1 W2.pa, .on false (.delRule 1), .share true none true]).objIndex true = some 3 ∧
+    (wrun W2.w0 [.grab false 1 W2.pa, .on false (.delRule 1), .share true none true]).obj.map (·.owner) =
+      some (some true) ∧
+    (wstep (wrun W2.w0 [.grab false 1 W2.pa, .on false (.delRule 1), .share true none true])
+      (.on false (.delNs W.p))).2 = .ok none := by
+  decide
 
 end CssVerif.C15
